@@ -3,6 +3,8 @@
 //! machinery error (exit 2), never a verdict about FML.
 
 use super::super::pipeline;
+use super::super::codec;
+use super::super::refvm;
 use super::super::refsem::{self, Fuel, Status};
 use serde_json::json;
 
@@ -74,6 +76,38 @@ pub fn corpus_files(root: &str) -> Vec<std::path::PathBuf> {
     v
 }
 
+/// M and B against the maintainers' golden bytecode files: B must decode and re-encode every
+/// tests/bc_test_*/*.bc byte-identically, and M must print the `// >` lines of the .bc.txt next to it.
+fn golden_bytecode(root: &str) -> (usize, Vec<serde_json::Value>, Vec<serde_json::Value>) {
+    let mut agree = 0; let mut skipped = vec![]; let mut bad = vec![];
+    for d in ["tests/bc_test_1", "tests/bc_test_2", "tests/bc_test_3"] {
+        let mut files: Vec<std::path::PathBuf> = std::fs::read_dir(format!("{}/{}", root, d)).map(|rd| rd.flatten().map(|e| e.path()).filter(|p| p.extension().map_or(false, |x| x == "bc")).collect()).unwrap_or_default();
+        files.sort();
+        for f in files {
+            let name = f.strip_prefix(root).unwrap_or(&f).to_string_lossy().trim_start_matches('/').to_string();
+            let bytes = match std::fs::read(&f) { Ok(b) => b, Err(_) => continue };
+            let prog = match codec::read(&bytes) { Ok(p) => p, Err(e) => { bad.push(json!({"file": name, "codec": format!("cannot decode: {}", e)})); continue } };
+            if codec::write(&prog) != bytes { bad.push(json!({"file": name, "codec": "re-encoding differs"})); continue }
+            let txt = f.with_extension("bc.txt");
+            let exp: Option<String> = std::fs::read_to_string(&txt).ok().and_then(|t| {
+                let ls: Vec<String> = t.lines().filter_map(|l| l.find("// >").map(|i| { let r = &l[i + 4..]; r.strip_prefix(' ').unwrap_or(r).to_string() })).collect();
+                if ls.is_empty() { None } else { Some(ls.join("\n") + "\n") }
+            });
+            let exp = match exp { Some(e) => e, None => { skipped.push(json!({"file": name, "why": "no expectation in the repository"})); continue } };
+            let m = refvm::run(&prog, 5_000_000);
+            match m.status {
+                Status::Unspec => skipped.push(json!({"file": name, "why": format!("outside the specified fragment: {}", m.reason)})),
+                _ => {
+                    let fml_name = name.replace(".bc", ".fml");
+                    if m.status == Status::Ok && (lines_agree(&fml_name, &m.out, &exp) || lines_agree(&name, &m.out, &exp)) { agree += 1 }
+                    else { bad.push(json!({"file": name, "status": format!("{:?}", m.status), "reason": m.reason, "machine": m.out, "expected": exp})) }
+                }
+            }
+        }
+    }
+    (agree, skipped, bad)
+}
+
 pub fn run(args: &[String]) -> i32 {
     let root = args.get(0).map(|s| s.as_str()).unwrap_or("/repo");
     let verbose = args.iter().any(|a| a == "-v");
@@ -94,7 +128,9 @@ pub fn run(args: &[String]) -> i32 {
             }
         }
     }
-    println!("{}", json!({"selfcheck": "R vs repository corpus", "agree": agree, "skipped": skipped, "disagree": bad}));
-    if verbose { for b in &bad { eprintln!("{}", serde_json::to_string_pretty(b).unwrap()) } }
-    if bad.is_empty() && agree >= 10 { 0 } else { 2 }
+    let (magree, mskipped, mbad) = golden_bytecode(root);
+    println!("{}", json!({"selfcheck": "R vs repository corpus; M and B vs golden bytecode", "agree": agree, "skipped": skipped, "disagree": bad,
+        "golden_bytecode": {"agree": magree, "skipped": mskipped, "disagree": mbad}}));
+    if verbose { for b in bad.iter().chain(mbad.iter()) { eprintln!("{}", serde_json::to_string_pretty(b).unwrap()) } }
+    if bad.is_empty() && agree >= 10 && mbad.is_empty() && magree >= 10 { 0 } else { 2 }
 }
